@@ -9,13 +9,14 @@ from vlib.tlc import run_tlc
 
 def collect(tier: str, seed: int, work: core.Work) -> dict:
     cov = {'states': 0, 'transitions': 0, 'models': {}}
-    for cfg in ['Deferred_q_mc.cfg'] + (['Deferred_mc.cfg'] if tier == 'thorough' else []):
+    small = tier != 'thorough'      # quick: files of <= 2 cells (37k transitions); thorough: <= 3 (350k) + design run with <= 5
+    for cfg in (['Deferred_s_mc.cfg'] if small else ['Deferred_q_mc.cfg', 'Deferred_mc.cfg']):
         r = run_tlc('Deferred', cfg, timeout=900)
         core.require_mc(r, cfg)
         cov['models'][cfg] = {'generated': r.generated, 'distinct': r.distinct, 'depth': r.depth}
         cov['states'] += r.distinct
         cov['transitions'] += r.generated
-    edges, r = core.dump_edges('Deferred', 'Deferred_q_edges.cfg')
+    edges, r = core.dump_edges('Deferred', 'Deferred_s_edges.cfg' if small else 'Deferred_q_edges.cfg')
     ops: dict = {}
     for e in edges:
         ops[e['a']['op']] = ops.get(e['a']['op'], 0) + 1
